@@ -13,7 +13,7 @@ import (
 func init() {
 	register("C13", &ruleSet{
 		run:    runC13,
-		floors: map[string]int{"O1": 4, "O2": 2, "O3": 1, "O4": 1, "O5": 3, "O6": 2, "O7": 2, "O8": 1, "O9": 3},
+		floors: map[string]int{"O1": 4, "O2": 2, "O3": 1, "O4": 1, "O5": 3, "O6": 2, "O7": 2, "O8": 1, "O9": 3, "O10": 2},
 		explain: "Decides the existence and ordering of the give-up mechanisms (instants are not applicable to a static argument): (O1) every blocking select in " +
 			"the limiter package has a wake-up/hand-off case, a ctx.Done() case (unconditional in the cond-var wait, conditional only on the configured eviction flag " +
 			"in the queue limiter) and a timer case armed from the configured bound whenever that bound is positive (a select without a timer is reachable only when " +
@@ -94,6 +94,9 @@ func runC13(p *Prog, l *Ledger) {
 
 	l.Rule("O6", "not before the bound while no capacity is offered (decided by the C12/O4 and C10/O5 rules on the same tree): a queued caller is taken out of the backlog, and its hand-off channel written or closed, only by its own give-up or together with a token acquired for it")
 	importObligations(p, l, "C12", "O6", func(o *Obligation) bool { return o.Rule == "O4" })
+
+	l.Rule("O10", "the pools hand their limiters a usable bound (decided by the C19/O1 rule on the same tree): backlog size and timeout reach the wrapper's configuration, a negative timeout normalised first - the queue limiter arms no timer for a non-positive one")
+	importObligations(p, l, "C19", "O10", func(o *Obligation) bool { return o.Rule == "O1" })
 
 	// ---------------- O9: why a blocking limiter refuses
 	l.Rule("O9", "a limiter that blocks on a condition refuses only for a reason the property names: every path of its Acquire / tryAcquire that answers (nil, false) has tested, on that path, the caller's context, the clock against the deadline, or the outcome of a wait; a refusal decided by remembered state (a sticky 'expired' flag) can come long before the bound")
